@@ -37,9 +37,9 @@ theorem n0Decide_LR (sos e : BidiClass) (he : e = L ∨ e = R) (tA tM : List Bid
 
 /-- the Spec's `n0One` on a list split at the two brackets -/
 theorem spec_n0One_split (sos e : BidiClass) (tA tM tZ : List BidiClass) (nA nM nZ : List Bool)
-    (x y : BidiClass) (no : Bool) (hA : tA.length = nA.length) (hM : tM.length = nM.length)
+    (x y : BidiClass) (no nc : Bool) (hA : tA.length = nA.length) (hM : tM.length = nM.length)
     (hZ : tZ.length = nZ.length) (a b : Nat) (ha : a = tA.length) (hb : b = tA.length + 1 + tM.length) :
-    Spec.n0One sos e (nA ++ no :: (nM ++ false :: nZ)) (tA ++ x :: (tM ++ y :: tZ)) (a, b) =
+    Spec.n0One sos e (nA ++ no :: (nM ++ nc :: nZ)) (tA ++ x :: (tM ++ y :: tZ)) (a, b) =
       match n0Decide sos e tA tM with
       | none => tA ++ x :: (tM ++ y :: tZ)
       | some v => tA ++ v :: (sweepL v nM tM ++ v :: sweepL v nZ tZ) := by
@@ -57,9 +57,9 @@ theorem spec_n0One_split (sos e : BidiClass) (tA tM tZ : List BidiClass) (nA nM 
   · cases hc2 : (tM.filterMap Spec.strongOfN0).contains (if (e == L) = true then R else L)
     · simp only [Bool.false_eq_true, if_false]
     · simp only [Bool.false_eq_true, if_false, if_true]
-      exact spec_writes _ tA tM tZ nA nM nZ x y no hA hM hZ
+      exact spec_writes _ tA tM tZ nA nM nZ x y no nc hA hM hZ
   · simp only [if_true]
-    exact spec_writes e tA tM tZ nA nM nZ x y no hA hM hZ
+    exact spec_writes e tA tM tZ nA nM nZ x y no nc hA hM hZ
 
 /-- the crate's `n0Pair`, unfolded along the walks `A.reverse`, `M ++ c :: Z`, `Z` -/
 theorem n0Pair_unfold (t : Text) (seq : IRSeq) (e : BidiClass) (he : e = L ∨ e = R)
@@ -117,7 +117,7 @@ theorem n0Pair_bn_units (t : Text) (hwf : t.WF) (h1 : ∀ s ∈ t.segs, s.len = 
     (hsorted : seq.indices.Pairwise (· < ·)) (hlt : ∀ i ∈ seq.indices, i < pcs.length)
     (hstart : pair.start < t.len) (hstop : pair.stop < t.len)
     (F F' : Nat → Prop) (hinv : InvBN seq.indices ocs pcs F) (hFo : F pair.start) (hFc : F pair.stop)
-    (hF' : ∀ b, F' b → F b ∧ b ≠ pair.start ∧ b ≠ pair.stop) :
+    (hF' : ∀ b, F' b → F b ∧ b ≠ pair.start ∧ b ≠ pair.stop) (hord : ∀ b, F' b → pair.start < b) :
     ∃ pcs', n0Pair t seq e ocs (pcs, none) pair = (pcs', none) ∧ pcs'.length = pcs.length ∧
       (∀ j, j ∉ seq.indices → cget pcs' j = cget pcs j) ∧ InvBN seq.indices ocs pcs' F' ∧
       (seq.indices.filter (keepU ocs)).map (cget pcs') =
@@ -126,29 +126,24 @@ theorem n0Pair_bn_units (t : Text) (hwf : t.WF) (h1 : ∀ s ∈ t.segs, s.len = 
           ((A.filter (keepU ocs)).length,
            (A.filter (keepU ocs)).length + 1 + (M.filter (keepU ocs)).length) := by
   obtain ⟨o, c, sr, er⟩ := pair
-  simp only at hU hfw1 hfw2 hbw hstart hstop hFo hFc hF'
+  simp only at hU hfw1 hfw2 hbw hstart hstop hFo hFc hF' hord
   obtain ⟨sseg, hcs, hls⟩ := charAt_unit t hwf h1 o hstart
   obtain ⟨eseg, hce, hle⟩ := charAt_unit t hwf h1 c hstop
   obtain ⟨mA, mM, mZ, hoc, sA, sM, sZ⟩ := split_mem seq.indices A M Z o c hU hsorted
-  obtain ⟨hoU, hko, hno, hto⟩ := hinv.fresh o hFo
-  obtain ⟨hcU, hkc, hnc, htc⟩ := hinv.fresh c hFc
+  obtain ⟨hoU, hko⟩ := hinv.fresh o hFo
+  obtain ⟨hcU, hkc⟩ := hinv.fresh c hFc
   have hM : ∀ i ∈ M, i < c := fun i hi => ((mM i).1 hi).2.2
   rw [n0Pair_unfold t seq e he hs ocs pcs ⟨o, c, sr, er⟩ A M Z sseg eseg hcs hls hce hle hfw1 hfw2 hbw hM]
   simp only
   -- removed units with a strong type have a witness, which is never one of the two brackets
   have hstrong : ∀ p ∈ seq.indices, keepU ocs p = false → (Spec.strongOfN0 (cget pcs p)).isSome = true →
-      FwdWit seq.indices ocs pcs p ∨ BwdWit seq.indices ocs pcs F p := by
+      ∃ q ∈ seq.indices, p < q ∧ keepU ocs q = true ∧ cget pcs q = cget pcs p ∧
+        (∀ i ∈ seq.indices, p < i → i < q → keepU ocs i = false) ∧ q ≠ o ∧ q ≠ c := by
     intro p hp hk hsome
-    rcases hinv.wit p hp hk with h | h | h | h
+    rcases hinv.wit p hp hk with h | h | ⟨q, hqU, hpq, hkq, hty, hb, hnF⟩
     · rw [h, strongOfN0_BN] at hsome; cases hsome
     · rw [h, strongOfN0_ON] at hsome; cases hsome
-    · exact Or.inl h
-    · exact Or.inr h
-  have hnoto : ∀ p q, (Spec.strongOfN0 (cget pcs p)).isSome = true → cget pcs q = cget pcs p → q ≠ o ∧ q ≠ c := by
-    intro p q hsome hty
-    constructor
-    · rintro rfl; rw [← hty, hto, strongOfN0_ON] at hsome; cases hsome
-    · rintro rfl; rw [← hty, htc, strongOfN0_ON] at hsome; cases hsome
+    · exact ⟨q, hqU, hpq, hkq, hty, hb, fun h => hnF (h ▸ hFo), fun h => hnF (h ▸ hFc)⟩
   -- the enclosed scan
   have hcont : ∀ d, ((M.map (cget pcs)).filterMap Spec.strongOfN0).contains d =
       (((M.filter (keepU ocs)).map (cget pcs)).filterMap Spec.strongOfN0).contains d := by
@@ -157,19 +152,12 @@ theorem n0Pair_bn_units (t : Text) (hwf : t.WF) (h1 : ∀ s ∈ t.segs, s.len = 
     intro p hpM hk hd
     have hpU := (mM p).1 hpM
     have hsome : (Spec.strongOfN0 (cget pcs p)).isSome = true := by rw [hd]; rfl
-    rcases hstrong p hpU.1 hk hsome with ⟨q, hqU, hpq, hkq, hty, hb⟩ | ⟨q, hqU, hqp, hkq, hty, hb, _⟩
-    · have hq := hnoto p q hsome hty
-      refine ⟨q, (mM q).2 ⟨hqU, by omega, ?_⟩, hkq, hty⟩
-      rcases Nat.lt_trichotomy q c with h | h | h
-      · exact h
-      · exact absurd h hq.2
-      · have := hb c hcU (by omega) h; rw [hkc] at this; cases this
-    · have hq := hnoto p q hsome hty
-      refine ⟨q, (mM q).2 ⟨hqU, ?_, by omega⟩, hkq, hty⟩
-      rcases Nat.lt_trichotomy o q with h | h | h
-      · exact h
-      · exact absurd h.symm hq.1
-      · have := hb o hoU h (by omega); rw [hko] at this; cases this
+    obtain ⟨q, hqU, hpq, hkq, hty, hb, hqo, hqc⟩ := hstrong p hpU.1 hk hsome
+    refine ⟨q, (mM q).2 ⟨hqU, by omega, ?_⟩, hkq, hty⟩
+    rcases Nat.lt_trichotomy q c with h | h | h
+    · exact h
+    · exact absurd h hqc
+    · have := hb c hcU (by omega) h; rw [hkc] at this; cases this
   -- the previous-strong search
   have hprevK : ((A.map (cget pcs)).reverse.filterMap Spec.strongOfN0).head? =
       (((A.filter (keepU ocs)).map (cget pcs)).reverse.filterMap Spec.strongOfN0).head? := by
@@ -177,18 +165,13 @@ theorem n0Pair_bn_units (t : Text) (hwf : t.WF) (h1 : ∀ s ∈ t.segs, s.len = 
     apply prev_filter_keep (keepU ocs) (cget pcs) A.reverse (by rw [List.pairwise_reverse]; exact sA)
     intro p hpA hk hsome
     have hpU := (mA p).1 (List.mem_reverse.1 hpA)
-    rcases hstrong p hpU.1 hk hsome with ⟨q, hqU, hpq, hkq, hty, hb⟩ | ⟨q, hqU, hqp, hkq, hty, hb, _⟩
-    · have hq := hnoto p q hsome hty
-      left
-      refine ⟨q, List.mem_reverse.2 ((mA q).2 ⟨hqU, ?_⟩), hpq, hkq, by rw [hty]; exact hsome⟩
-      rcases Nat.lt_trichotomy q o with h | h | h
-      · exact h
-      · exact absurd h hq.1
-      · have := hb o hoU (by omega) h; rw [hko] at this; cases this
-    · right
-      refine ⟨q, List.mem_reverse.2 ((mA q).2 ⟨hqU, by omega⟩), hqp, hkq, hty, ?_⟩
-      intro i hi h1 h2
-      exact hb i ((mA i).1 (List.mem_reverse.1 hi)).1 h2 h1
+    obtain ⟨q, hqU, hpq, hkq, hty, hb, hqo, hqc⟩ := hstrong p hpU.1 hk hsome
+    left
+    refine ⟨q, List.mem_reverse.2 ((mA q).2 ⟨hqU, ?_⟩), hpq, hkq, by rw [hty]; exact hsome⟩
+    rcases Nat.lt_trichotomy q o with h | h | h
+    · exact h
+    · exact absurd h hqo
+    · have := hb o hoU (by omega) h; rw [hko] at this; cases this
   have hdec : n0Decide seq.sos e (A.map (cget pcs)) (M.map (cget pcs)) =
       n0Decide seq.sos e ((A.filter (keepU ocs)).map (cget pcs)) ((M.filter (keepU ocs)).map (cget pcs)) := by
     unfold n0Decide
@@ -199,13 +182,9 @@ theorem n0Pair_bn_units (t : Text) (hwf : t.WF) (h1 : ∀ s ∈ t.segs, s.len = 
       A.filter (keepU ocs) ++ o :: (M.filter (keepU ocs) ++ c :: Z.filter (keepU ocs)) := by
     rw [hU]
     simp [List.filter_append, hko, hkc]
-  have hcnsm : (cget ocs c == NSM) = false := by
-    cases hb : cget ocs c == NSM with
-    | false => rfl
-    | true => exact absurd ((beq_iff _ _).1 hb) hnc
   rw [hK]
-  simp only [List.map_append, List.map_cons, hcnsm]
-  rw [spec_n0One_split seq.sos e _ _ _ _ _ _ _ _ _ (by simp) (by simp) (by simp) _ _ (by simp) (by simp)]
+  simp only [List.map_append, List.map_cons]
+  rw [spec_n0One_split seq.sos e _ _ _ _ _ _ _ _ _ _ (by simp) (by simp) (by simp) _ _ (by simp) (by simp)]
   cases hd : n0Decide seq.sos e ((A.filter (keepU ocs)).map (cget pcs)) ((M.filter (keepU ocs)).map (cget pcs)) with
   | none =>
     exact ⟨pcs, rfl, rfl, fun _ _ => rfl, hinv.mono (fun b hb => (hF' b hb).1), rfl⟩
@@ -213,8 +192,8 @@ theorem n0Pair_bn_units (t : Text) (hwf : t.WF) (h1 : ∀ s ∈ t.segs, s.len = 
     have hvLR := n0Decide_LR _ _ he _ _ v hd
     have hvBN : v ≠ BN := by rcases hvLR with rfl | rfl <;> decide
     obtain ⟨out, hmodel, hlen, hpt, hMout, hZout⟩ :=
-      n0_writes_bn ocs pcs seq.indices A M Z o c v hvBN hU hsorted hlt hnc
-    have hinv' := inv_step hinv hFo hFc hoc hF' hvBN hpt
+      n0_writes_bn ocs pcs seq.indices A M Z o c v hU hsorted hlt
+    have hinv' := inv_step hinv hFo hFc hF' hord hvBN hpt
     refine ⟨out, by simp only [hmodel], hlen, ?_, hinv', ?_⟩
     · intro j hj
       exact (hpt j).2 (fun hw => hj hw.1)
@@ -230,32 +209,16 @@ theorem n0Pair_bn_units (t : Text) (hwf : t.WF) (h1 : ∀ s ∈ t.segs, s.len = 
       have ec : cget out c = v := (hpt c).1 ⟨hcU, Or.inr (Or.inl rfl)⟩
       have eM : (M.filter (keepU ocs)).map (cget out) =
           sweepL v ((M.filter (keepU ocs)).map (fun u => cget ocs u == NSM)) ((M.filter (keepU ocs)).map (cget pcs)) := by
-        rw [← sweep_proj ocs pcs v M sM (fun i hi => hinv.kept i ((mM i).1 hi).1)]
-        · apply List.map_congr_left
-          intro j hj
-          exact hMout j (List.mem_filter.1 hj).1
-        · intro k hk hkk hkn hbefore p hp hpk hpr
-          have hkU := (mM k).1 hk
-          have hpU := (mM p).1 hp
-          refine hinv.trail o hFo k hkU.1 hkk ⟨hkU.2.1, ?_⟩ p hpU.1 hpU.2.1 hpk hpr
-          intro i hi h1 h2
-          rcases Nat.eq_or_lt_of_le h2 with h3 | h3
-          · subst h3; exact Or.inr hkn
-          · exact hbefore i ((mM i).2 ⟨hi, h1, by omega⟩) h3
+        rw [← sweep_proj ocs pcs v M sM]
+        apply List.map_congr_left
+        intro j hj
+        exact hMout j (List.mem_filter.1 hj).1
       have eZ : (Z.filter (keepU ocs)).map (cget out) =
           sweepL v ((Z.filter (keepU ocs)).map (fun u => cget ocs u == NSM)) ((Z.filter (keepU ocs)).map (cget pcs)) := by
-        rw [← sweep_proj ocs pcs v Z sZ (fun i hi => hinv.kept i ((mZ i).1 hi).1)]
-        · apply List.map_congr_left
-          intro j hj
-          exact hZout j (List.mem_filter.1 hj).1
-        · intro k hk hkk hkn hbefore p hp hpk hpr
-          have hkU := (mZ k).1 hk
-          have hpU := (mZ p).1 hp
-          refine hinv.trail c hFc k hkU.1 hkk ⟨hkU.2, ?_⟩ p hpU.1 hpU.2 hpk hpr
-          intro i hi h1 h2
-          rcases Nat.eq_or_lt_of_le h2 with h3 | h3
-          · subst h3; exact Or.inr hkn
-          · exact hbefore i ((mZ i).2 ⟨hi, h1⟩) h3
+        rw [← sweep_proj ocs pcs v Z sZ]
+        apply List.map_congr_left
+        intro j hj
+        exact hZout j (List.mem_filter.1 hj).1
       simp only
       rw [eA, eo, ec, eM, eZ]
 
